@@ -2,7 +2,7 @@
    The compact scan is the generic conjunction scan with needf c = max 1 (size c). *)
 From Coq Require Import List NArith ZArith Bool Permutation.
 From BE Require Import Model.Scan Model.Cursor Proofs.ScanProof Proofs.Refine Proofs.ConcreteScan.
-From BE Require Model.GoVal Model.Parsers Model.Index Gen.IdsGen Proofs.RoaringProof Proofs.IndexBuildInv Proofs.IndexCorrect Proofs.NonVacuous Model.Spec Proofs.SpecBridge.
+From BE Require Model.GoVal Model.Parsers Model.Index Gen.IdsGen Proofs.RoaringProof Proofs.IndexBuildInv Proofs.IndexCorrect Proofs.NonVacuous Model.Spec Proofs.SpecBridge Proofs.HoldersBuildInv Proofs.IndexCorrectHolders Proofs.SpecBridgeHolders Proofs.IndexCorrectPolicy Proofs.SpecBridgeHoldersPolicy.
 Import ListNotations.
 Local Open Scope N_scope.
 
@@ -115,6 +115,51 @@ Theorem C02_documents_exact_against_spec : forall pol thr parsers ds st os q,
     (forall z, In z docs -> exists d, In d ds /\ z = Index.d_id d).
 Proof. intros pol thr parsers. exact (SpecBridge.retrieve_docs_correct_spec Index.ICompact pol thr parsers). Qed.
 
+(* THE FULL STATEMENT over the executable model (Proofs/SpecBridgeHoldersPolicy.v): ANY builder configuration (every
+   field in the default, pattern or range container, any parser), ANY document list with distinct ids -- documents
+   may be rejected, conjunctions may fail to parse at any position --, EVERY bad-conjunction policy, ANY supported
+   assignment: the concrete retrieval on the index built by the concrete builder succeeds, reports no conjunction
+   twice, and reports, as (document, position, size) triples, exactly the specification's sat_hits (Model/Spec.v:
+   what expressions and assigned values DENOTE; which conjunctions are indexed under the policy; `hit`; sat_conj).
+   Hypotheses = the domain on which specification and model are both defined (each shown necessary by a vm_compute
+   witness in the Proofs files): doc_ok -- values are Go values the model represents exactly, and expressions of
+   conjunctions that denote lie in the specification's domain (keywords non-empty, range intervals representable:
+   every bound of magnitude <= 2^62 is); sizes_ok -- < 256 include fields per conjunction; skip_ok2 -- under Skip
+   no operator other than `in` on a default/pattern field (the holders PANIC on those under every policy);
+   -2^64 < thr -- any sane expansion threshold; asg_good' / asg_dom_den -- assigned values are supported and no
+   assigned integer is MaxInt64 on a field with a `>`; nil_slice_wf -- a nil slice has no elements. *)
+Theorem C02_full_statement : forall pol thr parsers cfgl st0 ds st os q,
+  HoldersBuildInv.config_fields (Index.new_builder Index.ICompact pol thr parsers) cfgl = Some st0 ->
+  Index.add_documents false st0 ds = (st, os) ->
+  NoDup (map Index.d_id ds) ->
+  (forall d cj, In d ds -> In cj (Index.d_conjs d) -> NoDup (map fst cj)) ->
+  (forall d, In d ds -> SpecBridgeHoldersPolicy.doc_ok parsers cfgl d) ->
+  IndexCorrectPolicy.sizes_ok ds ->
+  SpecBridgeHoldersPolicy.skip_ok2 pol (SpecBridgeHolders.cfg_fields parsers cfgl) parsers ds ->
+  ((- GoVal.two64 < thr)%Z \/
+   forall d cj, In d ds -> In cj (Index.d_conjs d) ->
+     Spec.conj_sem (SpecBridgeHolders.cfg_fields parsers cfgl) parsers cj <> None ->
+     HoldersBuildInv.conj_rwf thr (HoldersBuildInv.cfg_of cfgl) cj) ->
+  NoDup (map fst q) ->
+  SpecBridgeHolders.asg_good' parsers cfgl q ->
+  SpecBridgeHoldersPolicy.asg_dom_den parsers cfgl ds q ->
+  (Index.ICompact = Index.IKGroups -> forall f v, In (f, v) q -> HoldersBuildInv.cfg_of cfgl f = Index.CAc -> IndexCorrectHolders.nil_slice_wf v) ->
+  exists hits spec_hits,
+    Index.retrieve_hits (Index.build_index st) q = Index.ROk hits /\
+    Spec.sat_hits (SpecBridgeHolders.cfg_fields parsers cfgl) parsers pol Spec.pl_docok ds q = Some spec_hits /\
+    Permutation (map (fun h : Index.hitrec => SpecBridge.triple (snd h)) hits) spec_hits /\
+    NoDup (map snd hits).
+Proof. intros pol thr parsers cfgl. exact (SpecBridgeHoldersPolicy.index_sat_hits_holders_policy Index.ICompact pol thr parsers cfgl). Qed.
+
+Example C02_full_statement_nonvacuous : forall pol st os,
+  Index.add_documents false (SpecBridgeHoldersPolicy.HoldersSpecPolicyWitness.st0 Index.ICompact pol) SpecBridgeHoldersPolicy.HoldersSpecPolicyWitness.docs = (st, os) ->
+  exists hits spec_hits,
+    Index.retrieve_hits (Index.build_index st) SpecBridgeHoldersPolicy.HoldersSpecPolicyWitness.qq = Index.ROk hits /\
+    Spec.sat_hits SpecBridgeHoldersPolicy.HoldersSpecPolicyWitness.fields SpecBridgeHoldersPolicy.HoldersSpecPolicyWitness.ps pol Spec.pl_docok
+      SpecBridgeHoldersPolicy.HoldersSpecPolicyWitness.docs SpecBridgeHoldersPolicy.HoldersSpecPolicyWitness.qq = Some spec_hits /\
+    Permutation (map (fun h : Index.hitrec => SpecBridge.triple (snd h)) hits) spec_hits /\ NoDup (map snd hits).
+Proof. intros pol st os H. exact (proj1 (SpecBridgeHoldersPolicy.HoldersSpecPolicyWitness.applies Index.ICompact pol st os H)). Qed.
+
 (* the hypotheses of the end-to-end theorems are met by a concrete document set (3 documents, include and
    exclude expressions, a negative id) and assignment, accepted by the builder, for which the concrete
    retrieval returns a non-empty proper subset of the documents *)
@@ -134,3 +179,4 @@ Print Assumptions C02_concrete_compact_loop_exact.
 Print Assumptions C02_index_exact_against_spec.
 Print Assumptions C02_hits_are_the_specifications.
 Print Assumptions C02_documents_exact_against_spec.
+Print Assumptions C02_full_statement.
